@@ -302,6 +302,26 @@ pub fn gen_c08(rng: &mut Rng, thorough: bool) -> Vec<Tagged> {
             out.push((format!("act-{:?}-on-spatial-produced", a), Case::Net(spec, NetCmd::Forward(rand_input(rng, input, 0)))));
         }
     }
+    // (a3) a spatial feedback block directly followed by a dense layer (the block must flatten its output),
+    //      and followed by a spatial layer (it must not)
+    for r in 0..(if thorough { 24 } else { 8 }) {
+        let (c, h, w) = (1 + r % 2, 2 + r % 3, 2 + (r / 2) % 3);
+        let input = Sh::Sp(c, h, w);
+        let ls = vec![Simple::Conv { filters: c, kernel: (3, 3), stride: (1, 1), padding: (1, 1), dilation: (1, 1), act: ALL_ACTS[r % 6], dropout: None }];
+        let mut spec = NetSpec::new(input.to_shape());
+        let mut ws = vec![LW::Block(vec![rand_w(rng, &ls[0], input, 1)])];
+        spec.layers.push(LayerSpec::Block { layers: ls, loops: 1 + r % 3, inskips: r % 4 == 1, outskips: r % 4 == 2, acc: crate::spec::Acc::Add });
+        let nxt = if r % 3 == 2 {
+            Simple::Maxpool { kernel: (1, 1), stride: (1, 1) }
+        } else {
+            Simple::Dense { out: 2, act: Act::Linear, bias: true, dropout: None }
+        };
+        ws.push(LW::One(match &nxt { Simple::Maxpool { .. } => W::None, d => rand_w(rng, d, Sh::Flat(input.numel()), 1) }));
+        spec.layers.push(LayerSpec::One(nxt));
+        spec.weights = Some(ws);
+        out.push(("spatial-block-then-next-shapes".into(), Case::Net(spec.clone(), NetCmd::Shapes)));
+        out.push(("spatial-block-then-next-produced".into(), Case::Net(spec, NetCmd::Forward(rand_input(rng, input, 0)))));
+    }
     // (b) flat -> spatial transitions for every flat size (perfect squares and not)
     let maxn = if thorough { 150 } else { 50 };
     for n in 1..=maxn {
@@ -561,6 +581,39 @@ pub fn gen_c01(rng: &mut Rng, thorough: bool) -> Vec<Tagged> {
         let x = rand_input(rng, input, 2);
         let t = rand_target(rng, Sh::Flat(outn), Obj::MSE);
         out.push(("net-bwd-two-blocks".into(), Case::Net(spec, NetCmd::Backward(x, t))));
+    }
+    // saturated units: pre-activations far out on both sides (|pre| between 19 and 60) for every activation
+    // and layer kind (the derivative there is tiny or zero, never huge)
+    for a in ALL_ACTS {
+        if a == Act::Softmax {
+            continue;
+        }
+        for (k, &shift) in [-60.0f32, -30.0, -21.0, -19.5, 19.5, 21.0, 30.0, 60.0].iter().enumerate() {
+            // dense: bias = shift
+            let d = Simple::Dense { out: 2, act: a, bias: true, dropout: None };
+            let mut spec = NetSpec::new(Sh::Flat(3).to_shape());
+            spec.weights = Some(vec![LW::One(W::Dense(t2(2, 3, &[0.25, -0.5, 0.125, -0.25, 0.5, 0.0625]), Some(t1(vec![shift, shift * 0.5]))))]);
+            spec.layers.push(LayerSpec::One(d));
+            out.push((format!("dense-saturated-{:?}-layer-bwd", a), Case::Net(spec.clone(), NetCmd::LayerBackward(0, t1(vec![0.5, -0.25, 1.0]), t1(vec![1.0, -0.5])))));
+            // the same layer inside a network, under MSE
+            let d2 = Simple::Dense { out: 1, act: Act::Linear, bias: true, dropout: None };
+            let mut net = spec.clone();
+            let mut ws = net.weights.take().unwrap();
+            ws.push(LW::One(rand_w(rng, &d2, Sh::Flat(2), 2)));
+            net.layers.push(LayerSpec::One(d2));
+            net.weights = Some(ws);
+            net.obj = Obj::MSE;
+            out.push((format!("net-bwd-saturated-{:?}", a), Case::Net(net, NetCmd::Backward(t1(vec![0.5, -0.25, 1.0]), t1(vec![0.25])))));
+            // convolution: a large kernel entry on a constant-sign input
+            if k % 2 == 0 {
+                let c = Simple::Conv { filters: 1, kernel: (2, 2), stride: (1, 1), padding: (0, 0), dilation: (1, 1), act: a, dropout: None };
+                let mut cs = NetSpec::new(Sh::Sp(1, 3, 3).to_shape());
+                cs.weights = Some(vec![LW::One(W::Kernels(vec![t3(1, 2, 2, &[shift, 0.5, -0.25, 0.125])]))]);
+                cs.layers.push(LayerSpec::One(c));
+                let x = t3(1, 3, 3, &[1.0, 0.9, 1.1, 0.95, 1.05, 1.0, 0.9, 1.1, 1.0]);
+                out.push((format!("conv-saturated-{:?}-layer-bwd", a), Case::Net(cs, NetCmd::LayerBackward(0, x, t3(1, 2, 2, &[1.0, -1.0, 0.5, 0.25])))));
+            }
+        }
     }
     // feedback blocks that contain a max-pool layer (1x1 and real windows), with and without skips
     for r in 0..(if thorough { 64 } else { 16 }) {
